@@ -7,7 +7,11 @@ expected typed tree (validated: tags erased == plain AST), (3) with ModelBuilder
 tatsu.compile(asmodel=True)/tatsu.parse(asmodel=True) entry points.  The live trees of (3)-(5) are
 compared node by node with the expected tree (class name, declared bases in the MRO, attribute
 set, values, builtin conversions) and then monitored structurally: children()/parent of every
-holder, DepthFirst/BreadthFirst/PostOrder walkers, NodeWalker dispatch on declared bases.
+holder, DepthFirst/BreadthFirst/PostOrder walkers (a fresh instance, and an instance with a history:
+walked before, interrupted by an exception from a walk_xxx method, its generator run to the end or
+abandoned, another tree walked), NodeWalker dispatch on declared bases.
+Typed rules also carry FURTHER parameters after the type name (`binary(Binary::Base, 'infix', prec=3)`):
+those go to the semantic actions; the node is still built from the rule's value, on every route.
 DESIGN.md section 3/C07.
 """
 from __future__ import annotations
@@ -25,10 +29,10 @@ RULE = ('cases = (typed grammar TEXT, start rule, input): grammars of 2-6 rules 
         'leaf rules, untyped pass-through rules, bodies with and without named elements, typed rules called '
         'directly, in optionals, closures, joins/gathers, groups, nested closures (lists of lists), under '
         'overrides, inside untyped rules returning dicts, guarded direct recursion, plus random C01-generator '
-        'bodies; in half of the grammars up to two untyped rules get parameters that name no type (`r[1]`, `r[7, Foo]`, `r[k=1]`: the plain AST is expected at that place); slices: fresh (class names unique to the case), conflict (one class declared by two rules with DIFFERENT base chains and different named elements: judged on attributes/values only), collide (class names from a 5-name pool shared '
+        'bodies; in half of the grammars up to two untyped rules get parameters that name no type (`r[1]`, `r[7, Foo]`, `r[k=1]`: the plain AST is expected at that place); in half of the grammars ~60% of the TYPED rules (classes, chains, builtins) get further parameters after the type name, in the documented spellings `r[A, "x"]`, `r(A::B, 3)`, `r[A, op="+"]`, `r(A::B::C, infix, 1, prec=2.5)`: 1-3 positional and/or 1-2 keyword parameters, values bare words (some looking like class names), quoted strings (also empty), ints (also 0), floats; keyword names disjoint from element names and node fields; such a rule must give the same node as without them (class, bases, attributes = named elements, ast = value, children) on the synthesized, module (generated-semantics/typedefs/constructors), asmodel and generated-parser routes; half of the bracket spellings of all parameter lists are written with parentheses; slices: fresh (class names unique to the case), conflict (one class declared by two rules with DIFFERENT base chains and different named elements: judged on attributes/values only), collide (class names from a 5-name pool shared '
         'by all cases of the process, chains redrawn per case), shared (two rules declaring one class), hostile '
         '(element names meeting the node API / AST key renaming); inputs derived from the grammar, ~15% mutated. '
-        'for every third grammar the parser GENERATED from the model is run too (before the model, with ModelBuilderSemantics and with the tagging semantics): class names, base chains against the grammar\'s annotation, attributes, structure. non-trivial = the plain parse ACCEPTED and the expected tree contains at least one typed node, distinct '
+        'every tree is walked by a fresh DepthFirst/BreadthFirst/PostOrder walker and then by a walker INSTANCE WITH A HISTORY (one of: a complete walk of the same tree, a walk interrupted after k nodes by an exception raised in walk_Node, iter_depthfirst/iter_breadthfirst/iter_postdepthfirst run to the end, the generator closed after its first node, a walk of another tree of the same value), which must reach every node again; for every third grammar the parser GENERATED from the model is run too (before the model, with ModelBuilderSemantics and with the tagging semantics): class names, base chains against the grammar\'s annotation, attributes, structure. non-trivial = the plain parse ACCEPTED and the expected tree contains at least one typed node, distinct '
         'by (grammar text, start, input)')
 ASSUMPTIONS = [
     'the expected typed tree is the value the real parser returns when the only semantic action pairs the value '
@@ -50,6 +54,16 @@ ASSUMPTIONS = [
     '.ast): counted as flagged:dict-value-not-from-own-names, values compared wherever they are',
     'the synthesized-class registry is read through vars(tatsu.objectmodel.synth) only to name the mechanism of an '
     'MRO mismatch (stale class) and to make such a witness replayable; the verdict does not depend on it',
+    'a walker instance may be used for more than one walk, also after a walk that an exception from one of its '
+    'walk_xxx methods ended and after its generator method (iter_depthfirst, iter_breadthfirst, '
+    'iter_postdepthfirst: public names of tatsu.walkers) was iterated or abandoned-and-closed; "the tree walkers '
+    'reach every node" is read as holding for each of these walks (judged only when a fresh instance reached all)',
+    'further parameters of a typed rule (after the type name) are for the semantic actions (documented: "Rules with '
+    'Arguments"); the property says what the node is built from (the rule\'s named elements / value), so the '
+    'expected tree of such a rule is the one of the same rule without them.  Not generated (open corners): a '
+    'keyword parameter called like a named element of the rule or like a field of every node (ast, ctx, parseinfo), '
+    'and further parameters in the `r::A, x` spelling (the grammar language does not take it before `=`); what '
+    'the actions RECEIVE as further parameters is not judged here (only counted)',
 ]
 FLOORS = {
     'quick': {'accepted': 4000, 'distinct_nontrivial': 3400, 'nodes_expected': 20000, 'exact_comparisons': 8000,
@@ -70,7 +84,24 @@ FLOORS = {
               'nontype_param_rules:keywords-only': 130, 'nontype_param_parses:number-first': 220,
               'nontype_param_parses:number-then-word': 220, 'nontype_param_parses:keywords-only': 220,
               'genparser_built': 350, 'genparser_comparisons': 1500, 'genparser_chains_judged': 1900,
-              'params_compared_with_grammar': 4500},
+              'params_compared_with_grammar': 4500,
+              'grammars_with_typed_extra_params': 550, 'typed_extra_rules:positional': 580,
+              'typed_extra_rules:keywords': 280, 'typed_extra_rules:both': 280,
+              'typed_extra_rules_on:builtin': 160, 'typed_extra_rules_on:chain-2': 370,
+              'typed_extra_rules_on:chain-3': 180, 'typed_extra_values:word': 650,
+              'typed_extra_values:quoted-string': 550, 'typed_extra_values:int': 650, 'typed_extra_values:float': 320,
+              'typed_extra_parses:positional': 1200, 'typed_extra_parses:keywords': 600,
+              'typed_extra_parses:both': 600, 'extra_param_values_judged_on:synth': 5000,
+              'extra_param_values_judged_on:module': 5000, 'extra_param_values_judged_on:api': 270,
+              'extra_param_values_judged_on:genparser': 1700,
+              'extra_param_values_judged_on:module:generated-semantics': 1600,
+              'extra_param_values_judged_on:module:typedefs': 1600,
+              'extra_param_values_judged_on:module:constructors': 1600,
+              'walker_reuse:depthfirst': 8000, 'walker_reuse:breadthfirst': 8000, 'walker_reuse:postorder': 8000,
+              'walker_reuse_history:walked': 9000, 'walker_reuse_history:interrupted': 6000,
+              'walker_reuse_history:iterated-to-the-end': 6000, 'walker_reuse_history:iterated-partly': 6000,
+              'walker_reuse_history:walked-another-tree': 100,
+              'type_spelling:()': 70, 'type_spelling:()+further-params': 80, 'type_spelling:[]+further-params': 80},
     'thorough': {'accepted': 100000, 'distinct_nontrivial': 90000, 'nodes_expected': 550000,
                  'route_runs:synth': 140000, 'route_runs:module': 140000, 'route_runs:api': 11000,
                  'child_links_checked': 390000, 'child_in:nested-list': 150000, 'child_in:dict': 23000,
@@ -82,7 +113,14 @@ FLOORS = {
                  'slice:conflict': 2500, 'conflict_attrs_judged:synth': 27000, 'conflict_attrs_judged:module': 27000,
                  'nontype_param_parses:number-first': 5000, 'nontype_param_parses:number-then-word': 5000,
                  'nontype_param_parses:keywords-only': 5000, 'genparser_comparisons': 35000,
-                 'genparser_chains_judged': 45000},
+                 'genparser_chains_judged': 45000,
+                 'walker_reuse:depthfirst': 210000, 'walker_reuse:breadthfirst': 210000,
+                 'walker_reuse:postorder': 210000, 'walker_reuse_history:interrupted': 150000,
+                 'walker_reuse_history:iterated-to-the-end': 150000, 'walker_reuse_history:iterated-partly': 150000,
+                 'typed_extra_parses:positional': 30000, 'typed_extra_parses:keywords': 15000,
+                 'typed_extra_parses:both': 15000, 'extra_param_values_judged_on:synth': 125000,
+                 'extra_param_values_judged_on:module': 125000, 'extra_param_values_judged_on:api': 9500,
+                 'extra_param_values_judged_on:genparser': 42000},
 }
 PEAK_COUNTERS = ('max_depth', 'max_nodes_in_tree')
 
@@ -224,6 +262,27 @@ def check_grammar(acc, g, meta, inputs_fn, origin, prelude=None):
     tagsem = M.TagSemantics([r.name for r in g.rules])
     for _, kind in meta.get('nontype', ()):
         acc.count('nontype_param_rules:' + kind)
+    # typed rules with further parameters after the type name (`binary(Binary, 'infix', prec=3)`)
+    extra_rules = {}
+    byname = {r.name: r for r in g.rules}
+    for rname, shape, kinds in meta.get('extras', ()):
+        r = byname[rname]
+        ptext = ', '.join([L.param_text(x) for x in r.params[1:]] + [f'{k}={L.param_text(v)}' for k, v in r.kwparams])
+        extra_rules[rname] = (shape, ptext)
+        acc.count('typed_extra_rules:' + shape)
+        acc.count('typed_extra_rules_on:' + ('builtin' if r.params[0] in M.BUILTINS else
+                                             f'chain-{min(len(r.params[0].split("::")), 3)}'))
+        for kd in kinds:
+            acc.count('typed_extra_values:' + kd)
+    if extra_rules:
+        acc.count('grammars_with_typed_extra_params')
+        acc.count('typed_extra_build:' + build)
+    if build == 'text':
+        for r, st in zip(g.rules, meta.get('styles') or ()):
+            if M.rule_spec(r) is not None:
+                acc.count('type_spelling:' + ('::' if st == '::' and r.name not in extra_rules else
+                                              '()' if st == '()' else '[]')
+                          + ('+further-params' if r.name in extra_rules else ''))
 
     # the generated parser (sampled): built from the same model by the real code generator.  Its
     # parses run BEFORE the model's so that the classes of this case are synthesized from what the
@@ -298,7 +357,10 @@ def check_grammar(acc, g, meta, inputs_fn, origin, prelude=None):
                 acc.count('flagged:tagged-differs-from-plain')
                 exact = False
             for kind in tagsem.hits:   # the parse went through a rule whose parameters name no type
-                acc.count('nontype_param_parses:' + kind)
+                if kind.startswith('typed+'):   # ... or through a typed rule with further parameters
+                    acc.count('typed_extra_parses:' + kind[6:])
+                else:
+                    acc.count('nontype_param_parses:' + kind)
         else:
             acc.count('rejected')
 
@@ -354,7 +416,8 @@ def check_grammar(acc, g, meta, inputs_fn, origin, prelude=None):
             judge = M.Judge('module' if route == 'module' else 'synth', stale_names=stale, module=module,
                             own_names=own_names, shared_heads=shared_heads,
                             conflict_heads=meta.get('conflict_heads', ()),
-                            declared_specs=declared_specs if route == 'genparser' else None)
+                            declared_specs=declared_specs if route == 'genparser' else None,
+                            extra_rules=extra_rules)
             if route == 'genparser':
                 judge.corr(mv, gp_tagged[1])
                 acc.count('genparser_comparisons')
@@ -372,6 +435,11 @@ def check_grammar(acc, g, meta, inputs_fn, origin, prelude=None):
             acc.peak('max_depth', judge.maxdepth)
             for k, v in judge.ev.items():
                 acc.count(k, v)
+            if judge.ev.get('extra_param_values_judged'):
+                acc.count(f'extra_param_values_judged_on:{route}', judge.ev['extra_param_values_judged'])
+                if route == 'module':
+                    acc.count(f'extra_param_values_judged_on:module:{modsem_kind}',
+                              judge.ev['extra_param_values_judged'])
             if nn:
                 any_nodes = True
             for sig, msg in judge.findings:
@@ -426,7 +494,8 @@ MANIFEST = {
                  'expected typed tree obtained from the plain-AST parse of the same input plus the grammar annotations '
                  '(tagging semantics, validated against the plain AST), and the live object tree is monitored for the '
                  'children/parent/walker invariants',
-    'level_text': 'seeded typed grammars (text route, `::` and `[]` annotation syntax, chains, builtins, nodes in lists, '
+    'level_text': 'seeded typed grammars (text route, `::`, `[]` and `()` annotation syntax, chains, builtins, typed rules '
+                  'with further positional/keyword parameters after the type name, nodes in lists, '
                   'nested lists, dicts, optionals, overrides; fresh and process-wide colliding class names) x derived '
                   'inputs; each accepted parse is checked on three routes (synthesized classes, generated model module '
                   'through its generated semantics / typedefs= / constructors=, asmodel=True entry points); exploration is '
